@@ -4,6 +4,7 @@ use crate::Ctx;
 pub mod c01;
 pub mod c02;
 pub mod c04;
+pub mod c05;
 pub mod c07;
 pub mod c08;
 pub mod c09;
@@ -21,6 +22,8 @@ pub fn run(prop: &str, ctx: &Ctx, r: &mut Report) -> bool {
 		"C02" => c02::run_c02(ctx, r),
 		"C03" => c02::run_c03(ctx, r),
 		"C04" => c04::run(ctx, r),
+		"C05" => c05::run_c05(ctx, r),
+		"C06" => c05::run_c06(ctx, r),
 		"C07" => c07::run(ctx, r),
 		"C08" => c08::run(ctx, r),
 		"C09" => c09::run(ctx, r),
